@@ -175,7 +175,7 @@ var interpPkgs = map[string]bool{
 var interpFuncs = map[string]bool{
 	"time.Unix": true, "(time.Time).Equal": true, "(time.Time).Before": true, "(time.Time).After": true,
 	"(time.Time).Unix": true, "(*time.Time).sec": true, "(*time.Time).nsec": true, "(*time.Time).unixSec": true,
-	"(time.Time).Sub": true, "(time.Time).Compare": true, "time.subMono": true, "(time.Duration).Seconds": true,
+	"(time.Time).Sub": true, "(time.Time).Compare": true, "(time.Time).Nanosecond": true, "time.subMono": true, "(time.Duration).Seconds": true,
 	"(*time.Time).setLoc": true, "(*time.Time).stripMono": true, "(*time.Time).addSec": true, "(*time.Time).mono": true,
 	"(*time.Time).setMono": true,
 	"strconv.Itoa":         true,
